@@ -240,6 +240,25 @@ def _balanced(s: str) -> bool:
     return depth == 0 and not instr
 
 
+def apalache(module: str, init: str, inv: str, length: int, timeout: int = 1200, expect_error: bool = False) -> dict:
+    """Run Apalache (symbolic checker) on /verif/spec/<module>.tla: --init / --inv / --length.  Returns dict(ok, wall).
+    A failure is a failure of the specification (stage A), i.e. exit 2 - never a verdict about peptacular."""
+    t0 = time.time()
+    out_dir = workdir() / "apalache"
+    p = subprocess.run(["apalache-mc", "check", f"--init={init}", f"--inv={inv}", f"--length={length}",
+                        f"--out-dir={out_dir}", f"{module}.tla"], cwd=str(SPEC), capture_output=True, text=True,
+                       timeout=timeout)
+    no_error = "The outcome is: NoError" in p.stdout
+    found = "The outcome is: Error" in p.stdout
+    ok = found if expect_error else no_error
+    if not ok:
+        sys.stdout.write(p.stdout[-3000:])
+        die_machinery(f"apalache {module} --init={init} --inv={inv} --length={length}: "
+                      f"{'no counterexample although one was expected' if expect_error else 'not proved'}")
+    shutil.rmtree(out_dir, ignore_errors=True)
+    return {"ok": True, "wall": time.time() - t0, "states": 0, "distinct": 0}
+
+
 def pmap(fn, items, procs: int = 16, chunksize: int = 8) -> list:
     """Run fn over items in forked worker processes (order preserved). fn must be a module-level function."""
     import multiprocessing as mp
@@ -436,7 +455,8 @@ class Report:
                   wall_s=round(time.time() - self.t0, 2), violations=len(self.violations))
         out_dir = EVID if not self.prop.startswith("X") else VERIF / "extras"    # X..: not a listed property
         out_dir.mkdir(exist_ok=True)
-        (out_dir / f"{self.prop}.json").write_text(json.dumps(ev, indent=1, default=str))
+        if not os.environ.get("VERIF_NO_EVIDENCE"):
+            (out_dir / f"{self.prop}.json").write_text(json.dumps(ev, indent=1, default=str))
         print(f"{self.prop} {self.tier}: events={self.events} ok={self.events - len(self.violations) - sum(len(v) for v in self.known.values())} "
               f"known={sum(len(v) for v in self.known.values())} violations={len(self.violations)} "
               f"states={self.states} wall={time.time() - self.t0:.1f}s")
